@@ -2,6 +2,7 @@
 From Coq Require Import ZArith List Bool Reals. Import ListNotations.
 From PV Require Import Num NumR model.Geom proofs.LatticeFacts proofs.SiteFacts proofs.OverlapFacts proofs.PackingFacts proofs.LJFacts.
 From PV Require Import gen.GenFns proofs.SourceFacts.
+From PV Require Import proofs.SourceCorollaries.
 
 Theorem C13_lj_is_12_6 :
   forall (a b : ljR) (r : R), lcut NumR a = None -> (0 < r)%R -> (r * r)%R = r2_of a b -> energy
@@ -83,4 +84,24 @@ Theorem C13_source_translated :
   gen_fns_problem = String.EmptyString.
 Proof. exact source_translated. Qed.
 Print Assumptions C13_source_translated.
+
+
+Theorem C13_source_lj_is_12_6 :
+  forall (a b : ljR) (r : R), lcut NumR a = None -> (0 < r)%R -> (r * r)%R = r2_of a b ->
+    gen_lj_energy NumR rpowi a b = (4 * leps NumR a * ((lsigma NumR a / r) ^ 12 - (lsigma NumR a
+    / r) ^ 6))%R.
+Proof. exact source_lj_is_12_6. Qed.
+Print Assumptions C13_source_lj_is_12_6.
+
+Theorem C13_source_lj_zero_beyond :
+  forall (a b : ljR) (x : R), lcut NumR a = Some x -> (x * x <= r2_of a b)%R -> gen_lj_energy
+    NumR rpowi a b = 0%R.
+Proof. exact source_lj_zero_beyond. Qed.
+Print Assumptions C13_source_lj_zero_beyond.
+
+Theorem C13_source_lj_symmetric_like :
+  forall a b : ljR, lsigma NumR a = lsigma NumR b -> leps NumR a = leps NumR b -> lcut NumR a =
+    lcut NumR b -> gen_lj_energy NumR rpowi a b = gen_lj_energy NumR rpowi b a.
+Proof. exact source_lj_symmetric_like. Qed.
+Print Assumptions C13_source_lj_symmetric_like.
 
